@@ -58,6 +58,7 @@ type SObs struct {
 	DefErr     []SErr   `json:"default_errors,omitempty"` // top-level error (one, or members if multi-error)
 	MultiErrs  []SErr   `json:"multi_errors,omitempty"`
 	PtrBad     []string `json:"pointer_violations,omitempty"` // direct C12 oracle on the Go side
+	Read       string   `json:"read_from_json,omitempty"`     // the same schema read from its JSON text: verdict unlike the schema built in memory
 	Typed      string   `json:"typed_entry_point,omitempty"`  // IsMatchingJSONBoolean/Number/String/Array/Object: verdict unlike IsMatching
 	ModeMix    string   `json:"mode_mix,omitempty"`           // FailFast()+MultiErrors() together: verdict unlike FailFast() alone
 	Leaks      []string `json:"leaks,omitempty"`              // direct C19 oracle on the Go side
@@ -326,6 +327,19 @@ func runSchemaCase(c *SCase) SObs {
 		}
 	} else {
 		o.IsMatching = o.Failfast
+	}
+	if len(opts) == 0 {
+		// a schema is usually read from a document: the schema read back from its own JSON gives the same verdict
+		if b, err := s.MarshalJSON(); err == nil {
+			var s2 openapi3.Schema
+			if err := s2.UnmarshalJSON(b); err == nil {
+				var rerr error
+				rp := catchPanic(func() { rerr = s2.VisitJSON(deepCopyJSON(val)) })
+				if c2 := classOf(rerr, rp); c2 != o.Default {
+					o.Read = fmt.Sprintf("built in memory: verdict %d; read from its JSON %s: verdict %d", o.Default, string(b), c2)
+				}
+			}
+		}
 	}
 	for _, e := range topErrors(dErr) {
 		o.DefErr = append(o.DefErr, toSErr(e))
@@ -823,6 +837,7 @@ func schemaRunner(prop string, gopts SchemaGenOpts, rule string, post func(c *SC
 			c19IPFormats(meta)
 			c19Discriminator(meta)
 			c19ReadWriteOnly(meta)
+			c19Dates(meta)
 		}
 		if prop == "C12" && replay == "" {
 			modesWithDefaults(seed, n/4, meta)
@@ -894,6 +909,10 @@ func init() {
 	}))
 	runners["C01"] = schemaRunner("C01", SchemaGenOpts{Hostile: true},
 		"directed keyword/boundary table + seeded random schemas (depth<=3) with values generated towards the schema then mutated; non-trivial = schema has at least one keyword beyond type; distinct by JSON of (schema,value)", func(c *SCase, o *SObs, meta *Meta, idx int) {
+			if o.Read != "" {
+				meta.GoViolation = append(meta.GoViolation, map[string]any{"signature": "schema-read-from-json-differs", "cases": []any{c}, "go_observation": o,
+					"judgement": "the schema read from its JSON text does not give the verdict of the schema built in memory: " + o.Read})
+			}
 			if o.Typed != "" {
 				meta.GoViolation = append(meta.GoViolation, map[string]any{"signature": "typed-entry-point-differs", "cases": []any{c}, "go_observation": o,
 					"judgement": "the typed entry point for the value's type does not give the verdict of IsMatching: " + o.Typed})
@@ -1071,6 +1090,39 @@ func c19IPFormats(meta *Meta) {
 							break
 						}
 					}
+				}
+			}
+		}
+	}
+}
+
+// dates that the format's pattern lets through although the calendar does not have them: whatever a
+// stricter validator says about them, it does not quote them
+func c19Dates(meta *Meta) {
+	for _, tc := range []struct{ format, v string }{{"date", "2023-02-30"}, {"date", "2023-04-31"}, {"date-time", "2023-02-30T10:00:00Z"}, {"date-time", "2023-06-31T25:61:00Z"}, {"date", "2023-02-3x"}} {
+		for _, multi := range []bool{false, true} {
+			s := openapi3.NewObjectSchema().WithProperty("d", openapi3.NewStringSchema().WithFormat(tc.format)).WithProperty("n", openapi3.NewIntegerSchema())
+			val := map[string]any{"d": tc.v, "n": "no"}
+			opts := []openapi3.SchemaValidationOption{openapi3.EnableFormatValidation(), openapi3.SetSchemaErrorMessageCustomizer(func(e *openapi3.SchemaError) string { return e.Reason })}
+			if multi {
+				opts = append(opts, openapi3.MultiErrors())
+			}
+			meta.Histogram["date format cases"]++
+			var texts []string
+			for _, disabled := range []bool{false, true} {
+				openapi3.SchemaErrorDetailsDisabled = disabled
+				var err error
+				if p := catchPanic(func() { err = s.VisitJSON(deepCopyJSON(val), opts...) }); p == nil && err != nil {
+					allReasons(err, &texts, 0)
+					catchPanic(func() { texts = append(texts, err.Error()) })
+				}
+				openapi3.SchemaErrorDetailsDisabled = false
+			}
+			for _, r := range texts {
+				if strings.Contains(r, tc.v) {
+					meta.GoViolation = append(meta.GoViolation, map[string]any{"signature": "leak", "cases": []any{map[string]any{"format": tc.format, "value": val, "multi_error": multi}},
+						"go_observation": r, "judgement": "a reason (or a message made from reasons) repeats the rejected date: " + r})
+					break
 				}
 			}
 		}
